@@ -8,6 +8,8 @@ import (
 	"strings"
 
 	"defracheck/internal/eng"
+
+	"golang.org/x/tools/go/cfg"
 )
 
 func init() {
@@ -32,7 +34,7 @@ func init() {
 			}},
 		},
 		Meta: eng.PropMeta{
-			Explanation: "Decides the structural conditions of a well-formed commit DAG: (BLOCK-WRITERS) the shared block store is written only through link systems that derive the key from the encoded bytes (coreblock.putBlock, the network sync link system, the KMS key store, the versioned fetcher's private copy) — no other function of the module calls Put/PutMany/DeleteBlock/SetWriteStorage; (HEIGHT) AddDelta sets the delta's priority to exactly (max head height returned by heads.List) + 1 and passes the same heads to New as parents, and heads.List accumulates a maximum; (SYNC-BEFORE-MERGE) the merge event of a received commit is published only after syncDAG returned without error, and loadBlockLinks walks AllLinks with every failure reaching the returned error (closure under ancestry before merge); (SORT-BEFORE-BUILD) parents and links are sorted before the block is built; (HEADS-UPDATE) updateHeads replaces a head only by the processed block's own cid, writes the new head on the leaf and new-branch paths, and every store failure is returned; (PURITY) block construction and encoding read no clock, randomness, environment or mutable package state; (ERRFLOW) storage errors are not dropped in the block/head cone. (CLOSURE-NO-TOLERANCE) every not-found test (errors.Is(err, …ErrNotFound…)) in the merge/apply cone is enumerated and classified by the producer of the error: a missing block-store block is never tolerated (only encryption-store and value/marker-key reads are). (MERGE-CID-BOUND) every merge event published by the network layer carries a cid that is bound to the synced data: the DAG was fetched by that cid, or the received block's own generated link was compared with it and a mismatch left the function.",
+			Explanation: "Decides the structural conditions of a well-formed commit DAG: (BLOCK-WRITERS) the shared block store is written only through link systems that derive the key from the encoded bytes (coreblock.putBlock, the network sync link system, the KMS key store, the versioned fetcher's private copy) — no other function of the module calls Put/PutMany/DeleteBlock/SetWriteStorage; (HEIGHT) AddDelta sets the delta's priority to exactly (max head height returned by heads.List) + 1 and passes the same heads to New as parents, and heads.List accumulates a maximum; (SYNC-BEFORE-MERGE) the merge event of a received commit is published only after syncDAG returned without error, and loadBlockLinks walks AllLinks with every failure reaching the returned error, and no exit of a link goroutine is silent — each has recorded an error or descended into its link, a cancelled context included (closure under ancestry before merge); (SORT-BEFORE-BUILD) parents and links are sorted before the block is built; (HEADS-UPDATE) updateHeads replaces a head only by the processed block's own cid, writes the new head on the leaf and new-branch paths, and every store failure is returned; (PURITY) block construction and encoding read no clock, randomness, environment or mutable package state; (ERRFLOW) storage errors are not dropped in the block/head cone. (CLOSURE-NO-TOLERANCE) every not-found test (errors.Is(err, …ErrNotFound…)) in the merge/apply cone is enumerated and classified by the producer of the error: a missing block-store block is never tolerated (only encryption-store and value/marker-key reads are). (MERGE-CID-BOUND) every merge event published by the network layer carries a cid that is bound to the synced data: the DAG was fetched by that cid, or the received block's own generated link was compared with it and a mismatch left the function.",
 			NotDecided:  "the head/frontier relation after arbitrary out-of-order and repeated merges (which blocks are heads is decided by runtime DAG shapes); hash correctness of third-party code; byte-identity of genesis commits across nodes beyond purity",
 		},
 	})
@@ -372,6 +374,106 @@ func ruleSyncBeforeMerge(c *eng.Ctx) {
 			return true
 		})
 		c.Check(retOK, rule, "loadBlockLinks:returns-async-error", fi.Decl.Pos(), "the collected goroutine error is returned", "loadBlockLinks does not return the error collected from its goroutines")
+		// no silent exit of a link goroutine: every exit of the goroutine that loads one link has either
+		// recorded an error into the returned variable (directly or through a local closure that assigns
+		// it) or has passed the recursive loadBlockLinks call for that link. An exit that does neither
+		// (e.g. "context already cancelled: return") makes the sync report success although that link and
+		// everything below it was neither fetched nor verified.
+		var retVar types.Object
+		ast.Inspect(fi.Decl.Body, func(m ast.Node) bool {
+			if _, ok := m.(*ast.FuncLit); ok {
+				return false
+			}
+			if r, ok := m.(*ast.ReturnStmt); ok && len(r.Results) == 1 {
+				if o := eng.ObjOf(info, r.Results[0]); o != nil {
+					if _, isVar := o.(*types.Var); isVar {
+						retVar = o
+					}
+				}
+			}
+			return true
+		})
+		assigns := func(nd ast.Node, o types.Object) bool {
+			found := false
+			ast.Inspect(nd, func(x ast.Node) bool {
+				if as, ok := x.(*ast.AssignStmt); ok {
+					for _, l := range as.Lhs {
+						if eng.ObjOf(info, l) == o {
+							found = true
+						}
+					}
+				}
+				return !found
+			})
+			return found
+		}
+		// local closures that record: setAsyncErr := func(err error) { asyncErr = err; … }
+		recorders := map[types.Object]bool{}
+		if retVar != nil {
+			ast.Inspect(fi.Decl.Body, func(m ast.Node) bool {
+				if as, ok := m.(*ast.AssignStmt); ok && len(as.Lhs) == 1 && len(as.Rhs) == 1 {
+					if lit, ok := ast.Unparen(as.Rhs[0]).(*ast.FuncLit); ok && assigns(lit.Body, retVar) {
+						if o := eng.ObjOf(info, as.Lhs[0]); o != nil {
+							recorders[o] = true
+						}
+					}
+				}
+				return true
+			})
+		}
+		records := func(nd ast.Node) bool {
+			if retVar == nil {
+				return false
+			}
+			if assigns(nd, retVar) {
+				return true
+			}
+			found := false
+			ast.Inspect(nd, func(x ast.Node) bool {
+				if id, ok := x.(*ast.Ident); ok && recorders[info.Uses[id]] {
+					found = true
+				}
+				return !found
+			})
+			return found
+		}
+		ng := 0
+		ast.Inspect(fi.Decl.Body, func(m ast.Node) bool {
+			gs, ok := m.(*ast.GoStmt)
+			if !ok {
+				return true
+			}
+			lit, ok := ast.Unparen(gs.Call.Fun).(*ast.FuncLit)
+			if !ok {
+				return true
+			}
+			ng++
+			flow := eng.NewFlow(info, lit.Body)
+			where := token.NoPos
+			silent := flow.Forward(flow.Entry(), true, eng.Walk{
+				Visit: func(_ eng.Point, nd ast.Node) eng.Action {
+					if _, isDefer := nd.(*ast.DeferStmt); isDefer {
+						return eng.Continue
+					}
+					if records(nd) || eng.ContainsCallTo(info, nd, false, "net.loadBlockLinks") != nil {
+						return eng.Cut
+					}
+					return eng.Continue
+				},
+				OnExit: func(ret *ast.ReturnStmt, b *cfg.Block) eng.Action {
+					if ret != nil {
+						where = ret.Pos()
+					} else {
+						where = lit.Body.End()
+					}
+					return eng.Hit
+				},
+			})
+			c.Check(!silent, rule, fmt.Sprintf("loadBlockLinks:link-goroutine#%d:no-silent-exit", ng), gs.Pos(), "every exit of the link goroutine has recorded an error or descended into the link",
+				"the link goroutine can return at "+c.P.Rel(where)+" without recording an error and without loading its link: loadBlockLinks then reports success for a DAG that was neither fetched nor verified below this block, and the merge event is published for it")
+			return true
+		})
+		c.Check(ng > 0 && retVar != nil, rule, "loadBlockLinks:link-goroutines-found", fi.Decl.Pos(), "link loading goroutine and returned error variable identified", "anchor-unresolved: no link goroutine / returned error variable in loadBlockLinks")
 	}
 }
 
